@@ -176,7 +176,7 @@ class C13Oracle(Oracle):
             if others:
                 self.fail("no-mutation", name, f"other-file-changed/{how}", {"step": brief, "files": others})
             ev = [e for e in w.fs.events_since(self.mark, dest) if e[0] in
-                  ("open_w", "open_a", "open_x", "trunc", "write")]
+                  ("open_w", "open_a", "open_x", "trunc", "write", "unlink", "rename", "renamed_onto")]
             if not out.ok:
                 injected = isinstance(out.exc, OSError)
                 if injected:
@@ -464,7 +464,7 @@ def tg_catalogue(g, w, h, tiers, tgs, wide, fileno, files_on):
             path = f"/simfs/c13_{fileno[0]}.TextGrid"
             prev = rng.random()
             if prev < 0.5:
-                junk = rng.randbytes(rng.randrange(1, 600))
+                junk = rng.randbytes(0 if rng.random() < 0.25 else rng.randrange(1, 600))
                 saves.append({"op": "env.put", "a": [path, {"$b": junk.hex()}]})
             else:
                 saves.append({"op": "tg.save", "recv": h, "a": [path, g.pick(FORMATS), True],
